@@ -288,7 +288,7 @@ Section NovelSpec.
     exists t p, In t txs /\ SelectRule o (tr_sel t) /\
                 In p (atg_positions (tr_dna t)) /\
                 ctx_stable r exc tbl (tr_dna t) p = true /\
-                Product wt water lim r exc true (orf_of tbl (tr_dna t) p) base.
+                Product wt water lim r exc false (orf_of tbl (tr_dna t) p) base.
 
   Definition BaseMay (o : selopt) (txs : list txrec) (base : seq) : Prop :=
     exists t p, In t txs /\ SelectRule o (tr_sel t) /\
@@ -385,7 +385,6 @@ Section NovelSpec.
   Lemma BaseMust_May o txs base : BaseMust o txs base -> BaseMay o txs base.
   Proof.
     intros (t & p & Ht & Hs & Hp & _ & Hb). exists t, p. repeat split; auto.
-    left. apply ProductOn_nf_mono. exact Hb.
   Qed.
 
   (* the bracket is well-formed: everything obliged is permitted *)
